@@ -21,7 +21,8 @@ ATTR = {"MUSIC": "music", "BANNER": "banner", "BACKGROUND": "background", "CDTIT
 HITS = ["banner.png", "Song Banner.JPG", "songbn.png", "bn.png", "background.jpg", "song-bg.png", "BG.PNG", "cdtitle.png", "my cdtitle.gif", "jk_song.png",
         "Jacket.png", "albumart.jpg", "song-cd.png", "song disc.png", "song title.png", "song.ogg", "Song.MP3", "audio.wav", "x.oga"]
 NEAR = ["bann.png", "xbnx.png", "bgx.png", "song-bg2.png", "cdtitl.png", "xjk_song.png", "song-cdx.png", "songdisc.png", "discs.png", "song.og", "song.mp4",
-        "banner", "Banner-BG.png", "jk_album-cd.jpg", "banner.ogg", ".bn", "bn", "title.txt", "readme.txt"]
+        "banner", "Banner-BG.png", "jk_album-cd.jpg", "banner.ogg", ".bn", "bn", "title.txt", "readme.txt",
+        "previewogg", "Notes_WAV", "backupmp3", "my banner-png", "song-bgxjpg", "jacket_png", "song titlexgif", "mp3", "ogg"]
 
 
 def rand_dir(rng):
@@ -73,8 +74,8 @@ def corpus():
 def gen(rng, i, tier):
     d = rand_dir(rng)
     props = rand_props(rng, d)
-    pack = {"inside": rng.sample(["a.png", "B.JPG", "c.jpeg", "d.gif", "e.bmp", "f.txt", "z.PNG"], rng.choice([0, 0, 1, 2, 4])),
-            "beside": rng.sample(["pack.png", "pack.jpg", "pack.bmp", "PACK.PNG", "packx.png", "other.png"], rng.choice([0, 1, 2]))}
+    pack = {"inside": rng.sample(["a.png", "B.JPG", "c.jpeg", "d.gif", "e.bmp", "f.txt", "z.PNG", "a_png", "thumbsgif", "oldbmp"], rng.choice([0, 0, 1, 2, 4])),
+            "beside": rng.sample(["pack.png", "pack.jpg", "pack.bmp", "PACK.PNG", "packx.png", "other.png", "pack-png", "packjpg"], rng.choice([0, 1, 2]))}
     return {"fs": rng.choice(["native", "mem"]), "dir": c19.enc_tree(d), "props": props, "pack": pack}
 
 
